@@ -4,32 +4,6 @@ From SE Require Export Expr.HashProofs Expr.Sorting.
 From Coq Require Import Lia ZifyBool ZifyNat ZifyN.
 Local Open Scope Z_scope.
 
-(* ---------- integer-level lexicographic combination ---------- *)
-Definition FTz (xy yz xz : Z) : Prop :=
-  (xy = -1 -> yz = -1 -> xz = -1) /\ (xy = 0 -> yz = 0 -> xz = 0) /\
-  (xy = 0 -> yz = -1 -> xz = -1) /\ (xy = -1 -> yz = 0 -> xz = -1).
-Definition lexZ (t u : Z) : Z := if t =? 0 then u else t.
-
-Lemma FT_FTz : forall {A} (c : A -> A -> Z) x y z, FT c x y z = FTz (c x y) (c y z) (c x z).
-Proof. reflexivity. Qed.
-
-Lemma FTz_lex : forall t1 t2 t3 u1 u2 u3,
-  in_range t1 -> in_range t2 -> in_range t3 -> FTz t1 t2 t3 -> FTz u1 u2 u3 ->
-  FTz (lexZ t1 u1) (lexZ t2 u2) (lexZ t3 u3).
-Proof.
-  unfold in_range, FTz, lexZ. intros t1 t2 t3 u1 u2 u3 R1 R2 R3 [T1 [T2 [T3 T4]]] [U1 [U2 [U3 U4]]].
-  destruct R1 as [-> | [-> | ->]]; destruct R2 as [-> | [-> | ->]]; destruct R3 as [-> | [-> | ->]];
-    cbn [Z.eqb Pos.eqb]; repeat split; intros A B; try discriminate; try reflexivity; auto;
-    exfalso; try (discriminate (T1 eq_refl eq_refl)); try (discriminate (T2 eq_refl eq_refl));
-    try (discriminate (T3 eq_refl eq_refl)); try (discriminate (T4 eq_refl eq_refl)).
-Qed.
-Lemma lexZ_range : forall t u, in_range t -> in_range u -> in_range (lexZ t u).
-Proof. unfold lexZ. intros. destruct (t =? 0); assumption. Qed.
-Lemma lexZ_antisym : forall t u t' u', t' = - t -> u' = - u -> lexZ t' u' = - lexZ t u.
-Proof. unfold lexZ. intros. subst. destruct (t =? 0) eqn:E1, (- t =? 0) eqn:E2; lia. Qed.
-Lemma lexZ_zero : forall t u, lexZ t u = 0 <-> t = 0 /\ u = 0.
-Proof. unfold lexZ. intros. destruct (t =? 0) eqn:E1; lia. Qed.
-
 (* comparison of two naturals (lengths) / two codes *)
 Definition natcmp (n m : nat) : Z := if (n =? m)%nat then 0 else if (n <? m)%nat then -1 else 1.
 Lemma natcmp_range : forall n m, in_range (natcmp n m).
@@ -46,11 +20,10 @@ Proof. unfold natcmp, lexZ. intros. dif; try reflexivity; try lia; discriminate.
 
 Section Lists.
   Variable c : expr -> expr -> Z.
-  Variable e : expr -> expr -> bool.
 
   Lemma lex_cmp_range : forall l1 l2, (forall x y, in_range (c x y)) -> in_range (lex_cmp c l1 l2).
   Proof.
-    intros l1 l2 H. revert l2. induction l1; destruct l2; cbn [lex_cmp]; try (right; left; reflexivity).
+    intros l1 l2 H. revert l2. induction l1; destruct l2 as [|e0 l2]; cbn [lex_cmp]; try (right; left; reflexivity).
     destruct (c a e0 =? 0); [apply IHl1 | apply H].
   Qed.
   Lemma sized_cmp_range : forall l1 l2, (forall x y, in_range (c x y)) -> in_range (sized_cmp c l1 l2).
@@ -61,14 +34,14 @@ Section Lists.
   Lemma lex_cmp_range_in : forall l1 l2, (forall x y, In x l1 -> In y l2 -> in_range (c x y)) ->
     in_range (lex_cmp c l1 l2).
   Proof.
-    induction l1; destruct l2; cbn [lex_cmp]; intros H; try (right; left; reflexivity).
+    induction l1; destruct l2 as [|e0 l2]; cbn [lex_cmp]; intros H; try (right; left; reflexivity).
     destruct (c a e0 =? 0); [apply IHl1; intros; apply H; right; assumption | apply H; left; reflexivity].
   Qed.
 
   Lemma lex_cmp_antisym : forall l1 l2,
     (forall x y, In x l1 -> In y l2 -> c x y = - c y x) -> lex_cmp c l1 l2 = - lex_cmp c l2 l1.
   Proof.
-    induction l1; destruct l2; cbn [lex_cmp]; intros H; try reflexivity.
+    induction l1; destruct l2 as [|e0 l2]; cbn [lex_cmp]; intros H; try reflexivity.
     rewrite (H a e0) by (left; reflexivity).
     rewrite IHl1 by (intros; apply H; right; assumption).
     destruct (c e0 a =? 0) eqn:E1; destruct (- c e0 a =? 0) eqn:E2; lia.
@@ -79,9 +52,15 @@ Section Lists.
     intros. unfold sized_cmp. rewrite (lex_cmp_antisym l1 l2 H). dif; lia.
   Qed.
 
+End Lists.
+
+Section ListsE.
+  Variable c : expr -> expr -> Z.
+  Variable e : expr -> expr -> bool.
+
   Lemma list_eqb_length : forall l1 l2, list_eqb e l1 l2 = true -> length l1 = length l2.
   Proof.
-    induction l1; destruct l2; cbn; intros H; try discriminate; [reflexivity|].
+    induction l1; destruct l2 as [|e0 l2]; cbn; intros H; try discriminate; [reflexivity|].
     apply andb_prop in H. f_equal. apply IHl1. apply H.
   Qed.
 
@@ -89,7 +68,7 @@ Section Lists.
     (forall x y, In x l1 -> In y l2 -> (c x y = 0 <-> e x y = true)) ->
     (lex_cmp c l1 l2 = 0 <-> list_eqb e l1 l2 = true).
   Proof.
-    induction l1; destruct l2; cbn [lex_cmp list_eqb length]; intros L H; try discriminate L.
+    induction l1; destruct l2 as [|e0 l2]; cbn [lex_cmp list_eqb length]; intros L H; try discriminate L.
     - tauto.
     - pose proof (H a e0 (or_introl eq_refl) (or_introl eq_refl)) as Ha.
       assert (IH : lex_cmp c l1 l2 = 0 <-> list_eqb e l1 l2 = true).
@@ -107,12 +86,17 @@ Section Lists.
     - split; [dif; lia|]. intros E. apply list_eqb_length in E. contradiction.
   Qed.
 
+End ListsE.
+
+Section ListsT.
+  Variable c : expr -> expr -> Z.
+
   Lemma lex_cmp_FT : forall l1 l2 l3, length l1 = length l2 -> length l2 = length l3 ->
     (forall x y, in_range (c x y)) ->
     (forall x y z, In x l1 -> In y l2 -> In z l3 -> FT c x y z) ->
     FT (lex_cmp c) l1 l2 l3.
   Proof.
-    induction l1; destruct l2; destruct l3; cbn [length]; intros L1 L2 R H;
+    induction l1; destruct l2 as [|e0 l2]; destruct l3 as [|e1 l3]; cbn [length]; intros L1 L2 R H;
       try discriminate L1; try discriminate L2.
     - unfold FT. cbn [lex_cmp]. lia.
     - assert (IH : FT (lex_cmp c) l1 l2 l3).
@@ -133,12 +117,11 @@ Section Lists.
     destruct (Nat.eqb_spec (length l1) (length l3)) as [L3|L3]; try lia;
       first [ apply LF; assumption | clear LF H; repeat split; intros A B; dif; lia ].
   Qed.
-End Lists.
+End ListsT.
 
 (* ---------- lists of (key, coefficient) entries ---------- *)
 Section NumPairs.
   Variable c : expr -> expr -> Z.
-  Variable e : expr -> expr -> bool.
 
   Definition nwf (m : list (expr * number)) : Prop := forall p, In p m -> num_wf (snd p) = true.
   Lemma nwf_tail : forall p m, nwf (p :: m) -> nwf m.
@@ -181,6 +164,12 @@ Section NumPairs.
     intros. unfold numpairs_sized_cmp. rewrite (numpairs_lex_cmp_antisym l1 l2) by assumption. dif; lia.
   Qed.
 
+End NumPairs.
+
+Section NumPairsE.
+  Variable c : expr -> expr -> Z.
+  Variable e : expr -> expr -> bool.
+
   Definition entry_eq (p q : expr * number) : Prop :=
     e (fst p) (fst q) = true /\ num_eqb (snd p) (snd q) = true.
 
@@ -212,6 +201,11 @@ Section NumPairs.
     - apply numpairs_lex_cmp_eq_iff; assumption.
     - split; [dif; lia|]. intros F. apply Forall2_length' in F. contradiction.
   Qed.
+
+End NumPairsE.
+
+Section NumPairsT.
+  Variable c : expr -> expr -> Z.
 
   Lemma numpairs_lex_cmp_FT : forall l1 l2 l3, nwf l1 -> nwf l2 -> nwf l3 ->
     length l1 = length l2 -> length l2 = length l3 ->
@@ -245,4 +239,4 @@ Section NumPairs.
     destruct (Nat.eqb_spec (length l1) (length l3)) as [L3|L3]; try lia;
       first [ apply LF; assumption | clear LF H; repeat split; intros A B; dif; lia ].
   Qed.
-End NumPairs.
+End NumPairsT.
